@@ -379,8 +379,18 @@ def run(ctx):
                         v.disagreement("C06 correspondence: UDP model and implementation differ on a history", line, ri[:2000], rm[:2000])
                 elif not bad:
                     nontrivial.add(line)
+            # bursts behind a held I/O thread: every datagram one data event on one session, without further traffic
+            bursts = ["B 200 1", "B 150 0", "B 65 1"] if not thorough else ["B 200 1", "B 150 0", "B 65 1", "B 1000 1", "B 500 0"] * 3
+            bi, bm, _ = vlib.run_pair(ctx, impl_exe, model_exe, bursts, "c06b", timeout=600)
+            for line, ri, rm in zip(bursts, bi, bm):
+                if ri != rm:
+                    v.property_failure("burst-datagrams-not-delivered", "a burst of datagrams queued on one listener while the I/O thread was "
+                                       "busy is not delivered completely, exactly once and on one session without further traffic: %s" % ri,
+                                       line, ri)
+                else:
+                    nontrivial.add(line)
             cov = {
-                "evaluations": len(lines),
+                "evaluations": len(lines) + len(bursts),
                 "distinct_nontrivial": len(nontrivial),
                 "rule": "random histories of 4..16 operations on a real UdpEngine over loopback: 1-2 listeners, 2-4 raw-socket peers, "
                         "datagrams peer->listener and peer->connected socket (sizes 1..9000, in every 20th case up to 65507; empty "
